@@ -46,19 +46,15 @@ def run(F, R, tier):
     R.floor("C19-a callers of restart", len(callers), 1)
     for c in callers:
         g = guards_at(F, c)
-        ok = c["_top"]["path"] == "graph::Builder::build" and any(x.kind == "cond" and x.pol and expr_text(x.node) == "should_restart" for x in g)
+        ok = c["_top"]["path"] == "graph::Builder::build" and any(x.kind == "cond" and x.pol and any(mentions_call(y, ["Builder::resolve_pending"]) for y in through_locals(x.node)) for x in g) and len([x for x in g if x.kind == "cond"]) == 1
         R.ob("C19-a", "restart is only reached when resolve_pending asked for it", ok, "restart called from %s under %s" % (c["_top"]["path"], [x.text() for x in g]), where(c))
-        if ok:
-            loc = [x.node for x in g if x.kind == "cond" and expr_text(x.node) == "should_restart"][0]
-            d = [d for d in local_defs(c["_top"], loc["lid"]) if d[0] == "let"]
-            R.ob("C19-a", "should_restart is resolve_pending's answer", bool(d) and any(callee_matches(x, ["Builder::resolve_pending"]) for x in walk(d[0][1])), "should_restart defined otherwise", where(c))
     # true returns of resolve_pending / resolve_pending_jsr_specifiers
     rpj = F.body("graph::Builder::resolve_pending_jsr_specifiers")
     trues = [n for n in rpj["_nodes"] if n["k"] == "Ret" and peel(n.get("e", {})).get("v") is True]
     R.floor("C19-a restart requests", len(trues), 1)
     for t in trues:
         g = guards_at(F, t)
-        ok = any(x.kind == "cond" and x.pol and x.node.get("k") == "Binary" and x.node["op"] == "==" and "fill_pass_mode" in expr_text(x.node["l"]) and ctor_of(peel(x.node["r"])) == "graph::FillPassMode::AllowRestart" for x in g)
+        ok = any(x.kind == "cond" and x.pol and x.node.get("k") == "Binary" and x.node["op"] == "==" and mentions_field(x.node["l"], "fill_pass_mode") and ctor_of(peel(x.node["r"])) == "graph::FillPassMode::AllowRestart" for x in g)
         R.ob("C19-a", "a restart is requested only in AllowRestart mode", ok, "`return true` guarded by %s" % [x.text()[:60] for x in g if x.kind == "cond"], where(t))
     vals = return_values(F, rpj)
     R.ob("C19-a", "the only other answer is `false`", all(peel(v).get("k") == "Lit" for v in vals), "non-literal restart answer", rpj["file"])
@@ -66,14 +62,23 @@ def run(F, R, tier):
     rt = [n for n in rp["_nodes"] if n["k"] == "Ret" and peel(n.get("e", {})).get("v") is True]
     for t in rt:
         g = guards_at(F, t)
-        ok = any(x.kind == "cond" and x.pol and expr_text(x.node) == "should_restart" for x in g)
+        ok = any(x.kind == "cond" and x.pol and any(mentions_call(y, ["Builder::resolve_pending_jsr_specifiers"]) for y in through_locals(x.node)) for x in g)
         R.ob("C19-a", "resolve_pending forwards only the jsr resolver's restart request", ok, "`return true` in resolve_pending under %s" % [x.text() for x in g], where(t))
     allow = [n for n in F.all_nodes() if ctor_of(n) == "graph::FillPassMode::AllowRestart" and n["k"] == "Path" and not n["_top"].get("derived")]
     prod = [n for n in allow if not any(a.get("k") == "Binary" for a in k_ancestors(n)) and n["_p"].get("k") != "Pat"]
     R.floor("C19-a producers of AllowRestart", len(prod), 1)
     for p in prod:
         g = guards_at(F, p)
-        ok = p["_top"]["path"] == "graph::Builder::new" and any(x.kind == "pat" and x.pol and pat_text(x.pat) == "True" and "roots.is_empty" in expr_text(x.scrut).replace("()", "") for x in g)
+        ok = False
+        if p["_top"]["path"] == "graph::Builder::new":
+            for x in g:
+                if x.kind == "pat" and x.pol and pat_text(x.pat) == "True":
+                    atoms = []
+                    split_cond(x.scrut, True, atoms)
+                    if any(a.kind == "cond" and a.pol and a.node.get("k") == "MethodCall" and a.node["name"] == "is_empty" and peel(a.node["recv"]).get("field") == "roots" for a in atoms):
+                        ok = True
+                elif x.kind == "cond" and x.pol and x.node.get("k") == "MethodCall" and x.node["name"] == "is_empty" and peel(x.node["recv"]).get("field") == "roots":
+                    ok = True
         R.ob("C19-a", "AllowRestart is chosen only for a graph without roots", ok, "AllowRestart produced in %s under %s" % (p["_top"]["path"], [x.text()[:50] for x in g]), where(p))
 
     # ---------------- C19-b ------------------------------------------------
